@@ -11,6 +11,7 @@ import (
 	"os/exec"
 	"reflect"
 	"runtime"
+	"runtime/debug"
 	"strings"
 	"sync"
 	"syscall"
@@ -323,6 +324,7 @@ const workerAS = 6 << 30 // bytes of address space for the child
 func WorkerLoop() {
 	logger.Disable()
 	_ = syscall.Setrlimit(syscall.RLIMIT_AS, &syscall.Rlimit{Cur: workerAS, Max: workerAS})
+	debug.SetMaxStack(32 << 20) // unbounded recursion dies quickly instead of growing a 1 GB stack
 	in := bufio.NewReaderSize(os.Stdin, 1<<20)
 	w := bufio.NewWriterSize(os.Stdout, 1<<16)
 	for {
